@@ -914,6 +914,134 @@ static void run_fill(Ctx &c) {
   if (points >= 3 && ld > 1) c.nontrivial();
 }
 
+// ------------------------------------------------------------------------------------------------ generator names
+// Names derived systematically from the documented ones: as is, case variants, every proper prefix, one-letter insertions
+// (anywhere, incl. appended), one-letter substitutions, one-character deletions, a non-letter inside, no name at all; then the
+// separator the parser allows or not, then a fixed well-formed body of the family. Reference reading of the text (from the
+// unchanged sources): the name is the leading run of letters.
+//  mpt_iterator_create: accepted iff the name is linear|lin, factor|fact|fac, range in any case, followed by at most one
+//    white-space character and "(": everything else has to be refused (more white space: may be refused, see report).
+//  mpt_iterator_profile: the first 3 / 5 / 4 letters select lin / bound / poly in any case; for lin and bound the rest of the
+//    name has to be a (case sensitive) leading part of "ear" / "ary" (so "line", "bounda" are spellings the code accepts: modelled,
+//    reported as observation); then white space and/or one ':' have to follow.
+static std::string derive_name(Ctx &c, const std::string &base) {
+  std::string n = base;
+  static const char kLetters[] = "abcdefghijklmnopqrstuvwxyzLINEARFCTOGBUDYP";
+  switch (c.weighted({3, 3, 6, 5, 4, 3, 1, 1})) {
+    case 0: c.label("name:as-documented"); break;
+    case 1: for (auto &ch : n) if (c.flip()) ch = (char)toupper(ch); c.label("name:case-variant"); break;
+    case 2: n = n.substr(0, c.range(1, n.size() - 1)); c.label("name:proper-prefix"); break;
+    case 3: n.insert(c.pick(n.size() + 1), 1, kLetters[c.pick(sizeof kLetters - 1)]); c.label("name:letter-inserted"); break;
+    case 4: { size_t i = c.pick(n.size()); char r = kLetters[c.pick(26)]; if (r == n[i]) r = r == 'z' ? 'a' : r + 1; n[i] = r; c.label("name:letter-substituted"); break; }
+    case 5: n.erase(c.pick(n.size()), 1); c.label("name:letter-deleted"); break;
+    case 6: n.insert(c.pick(n.size() + 1), 1, "1_-. "[c.pick(5)]); c.label("name:non-letter-inside"); break;
+    default: n.clear(); c.label("name:none"); break;
+  }
+  return n;
+}
+static std::string lower(std::string t) { for (auto &ch : t) ch = (char)tolower(ch); return t; }
+static size_t letters(const std::string &t) { size_t i = 0; while (i < t.size() && isalpha((unsigned char)t[i])) ++i; return i; }
+
+static void run_names(Ctx &c) {
+  Session S;
+  Model M;
+  mpt::metatype *mt = 0;
+  if (c.flip()) {  // mpt_iterator_create
+    static const char *kBase[] = {"linear", "lin", "factor", "fact", "fac", "range"};
+    std::string base = kBase[c.pick(6)], name = derive_name(c, base);
+    static const char *kGap[] = {"", " ", "\t", "  ", " \t"};
+    size_t gap = c.weighted({8, 4, 1, 1, 1});
+    int fam = base[0] == 'l' ? 0 : base[0] == 'f' ? 1 : 2;
+    static const char *kBody[] = {"(4 : 0 2)", "(3:2:3)", "(0 1 : 0.25)"};
+    std::string text = name + kGap[gap] + kBody[fam];
+    // reference reading (leading white space is skipped; without a name the text is an explicit value list)
+    size_t lead = 0;
+    while (lead < text.size() && isspace((unsigned char)text[lead])) ++lead;
+    size_t nl = letters(text.substr(lead));
+    std::string word = lower(text.substr(lead, nl)), rest = text.substr(lead + nl);
+    char *numend = 0;
+    bool list = !nl && (strtod(text.c_str() + lead, &numend), numend != text.c_str() + lead);
+    bool known = word == "linear" || word == "lin" || word == "factor" || word == "fact" || word == "fac" || word == "range";
+    size_t ws = 0;
+    while (ws < rest.size() && isspace((unsigned char)rest[ws])) ++ws;
+    bool paren = ws < rest.size() && rest[ws] == '(';
+    M.what = "create \"" + text + "\"";
+    if (known && paren && ws <= 1) M.accept = MustAccept;
+    else if (known && paren) { M.accept = MayRefuse; c.label("name:more-than-one-blank"); }
+    else if (list) { M.accept = MayRefuse; c.label("name:text-is-a-value-list"); }
+    else M.accept = MustRefuse;
+    if (known && paren) {
+      int f = word[0] == 'l' ? 0 : word[0] == 'f' ? 1 : 2;  // (== fam: one edit never turns one family into another)
+      if (f == 0) { M.n_lo = M.n_hi = 5; M.at = [](uint64_t k) { return linear_at(0, 2, 4, k); }; }
+      else if (f == 1) { M.n_lo = M.n_hi = 4; M.at = [](uint64_t k) { static const double v[] = {0, 2, 6, 18}; return Expect{k < 4, k < 4 ? v[k] : 0, 1e-12}; }; }
+      else { M.n_lo = M.n_hi = 5; M.at = [](uint64_t k) { return Expect{true, 0.25L * k, 1e-12}; }; }
+    } else M.lenient = true;
+    char *heap = (char *)malloc(text.size() + 1);
+    memcpy(heap, text.c_str(), text.size() + 1);
+    S.heap.push_back(heap);
+    c.logf("%s ...", M.what.c_str());
+    mt = mpt_iterator_create(heap);
+    c.label("kind:create-names");
+  } else {  // mpt_iterator_profile
+    static const char *kBase[] = {"lin", "linear", "bound", "boundary", "poly", "line", "bounda"};
+    std::string base = kBase[c.pick(7)], name = derive_name(c, base);
+    static const char *kSep[] = {" ", ":", " : ", "  ", "", "\t"};
+    size_t sep = c.weighted({8, 3, 3, 1, 1, 1});
+    int fam = base[0] == 'l' ? 0 : base[0] == 'b' ? 1 : 2;
+    static const char *kBody[] = {"0 2", "1 5 9", "1 0"};
+    std::string text = name + kSep[sep] + kBody[fam];
+    size_t len = c.range(2, 6);
+    std::vector<double> grid;
+    mpt::array *a = S.new_array();
+    double *d = mpt_values_prepare(reinterpret_cast<mpt::typed_array<double> *>(a), (long)len);
+    VP_CHECK(c, d, "harness", "mpt_values_prepare(%zu) failed", len);
+    for (size_t i = 0; i < len; i++) grid.push_back(d[i] = 1.5 * (double)i - 2);
+    // reference reading
+    size_t lead = 0;
+    while (lead < text.size() && isspace((unsigned char)text[lead])) ++lead;
+    size_t nl = letters(text.substr(lead));
+    std::string word = text.substr(lead, nl), low = lower(word), rest = text.substr(lead + nl);
+    auto tail_ok = [&](size_t head, const char *tail) {
+      std::string t = word.substr(head);
+      return t.size() <= strlen(tail) && !strncmp(t.c_str(), tail, t.size());
+    };
+    int f = -1;
+    if (low.compare(0, 3, "lin") == 0 && nl >= 3 && tail_ok(3, "ear")) f = 0;
+    else if (low.compare(0, 5, "bound") == 0 && nl >= 5 && tail_ok(5, "ary")) f = 1;
+    else if (low == "poly") f = 2;
+    bool sepok = !rest.empty() && (isspace((unsigned char)rest[0]) || rest[0] == ':');
+    // what follows the separator (white space, at most one ':', white space) has to be the body this case was built with
+    size_t bp = 0;
+    while (bp < rest.size() && isspace((unsigned char)rest[bp])) ++bp;
+    if (bp < rest.size() && rest[bp] == ':') ++bp;
+    while (bp < rest.size() && isspace((unsigned char)rest[bp])) ++bp;
+    bool body = rest.substr(bp) == kBody[fam];
+    bool quirk = f >= 0 && f < 2 && !sepok && !rest.empty() && (word.size() == (f ? 8u : 6u));  // "linear0 2": full name directly followed by the values
+    M.what = "mpt_iterator_profile(grid of " + std::to_string(len) + ", \"" + text + "\")";
+    M.n_lo = M.n_hi = len;
+    bool strict = false;
+    if (f >= 0 && f == fam && sepok && body) { M.accept = MustAccept; strict = true; }
+    else if (f >= 0 && (quirk || (sepok && !body))) { M.accept = MayRefuse; c.label("name:body-changed-by-the-edit"); }
+    else M.accept = MustRefuse;
+    if (low.compare(0, 4, "file") == 0) M.accept = MayRefuse;  // (not reachable by one edit; the file profile is not covered)
+    if (!strict) { M.lenient = true; M.n_lo = 0; M.n_hi = UINT64_MAX; }
+    else if (f == 0) M.at = [len](uint64_t k) { return linear_at(0, 2, len - 1, k); };
+    else if (f == 1) M.at = [len](uint64_t k) { return Expect{true, k == 0 ? 1.0 : (k + 1 == len ? 9.0 : 5.0), 0}; };
+    else if (f == 2) M.at = [grid](uint64_t k) { return Expect{k < grid.size(), k < grid.size() ? grid[k] : 0, 1e-12}; };
+    if (f >= 0 && word != low && lower(base) == low) c.label("name:profile-mixed-case-accepted-form");
+    char *heap = (char *)malloc(text.size() + 1);
+    memcpy(heap, text.c_str(), text.size() + 1);
+    S.heap.push_back(heap);
+    c.logf("%s ...", M.what.c_str());
+    mt = mpt_iterator_profile(reinterpret_cast<const mpt::typed_array<double> *>(a), heap);
+    c.label("kind:profile-names");
+  }
+  check_created(c, M, mt);
+  if (!mt) return;
+  S.owned.push_back(mt);
+  drive(c, S, M, mt);
+}
+
 // ------------------------------------------------------------------------------------------------ vararg argument iterator
 // mpt_process_vararg(fmt, va_list, proc, ctx) (behind mpt_object_set(obj, name, fmt, ...)): the iterator over the arguments
 // only lives while `proc` runs, so the interleaving is driven from inside the callback; an oracle failure is kept and raised
@@ -1031,9 +1159,44 @@ static void run(Ctx &c) {
   if (sel < 110) return run_create(c);
   if (sel < 190) return run_direct(c);
   if (sel < 215) return run_text(c);
+  if (sel >= 232 && sel < 240) return run_names(c);
   if (sel < 240) return run_buffer(c);
   run_fill(c);
 }
+
+// exhaustive: every name one edit away from a documented one (proper prefixes, one letter inserted anywhere from a..z and
+// the capitals of the names, one letter substituted by a..z, one character deleted, the name itself, no name) for the 6
+// names of mpt_iterator_create and 7 spellings of mpt_iterator_profile, each with the two most common separators
+static const std::vector<std::vector<uint8_t> > &name_cases() {
+  static std::vector<std::vector<uint8_t> > all;
+  if (!all.empty()) return all;
+  static const char *kCreate[] = {"linear", "lin", "factor", "fact", "fac", "range"};
+  static const char *kProfile[] = {"lin", "linear", "bound", "boundary", "poly", "line", "bounda"};
+  for (int api = 0; api < 2; api++) {
+    size_t nb = api ? 7 : 6;
+    for (size_t b = 0; b < nb; b++) {
+      size_t n = strlen(api ? kProfile[b] : kCreate[b]);
+      std::vector<std::vector<uint8_t> > edits;
+      edits.push_back({0});                                                                    // as documented
+      edits.push_back({25});                                                                   // no name
+      for (size_t k = 1; k < n; k++) edits.push_back({6, (uint8_t)(k - 1)});                     // proper prefix of length k
+      for (size_t pos = 0; pos <= n; pos++) for (uint8_t l = 0; l < 42; l++) edits.push_back({12, (uint8_t)pos, l});
+      for (size_t pos = 0; pos < n; pos++) for (uint8_t l = 0; l < 26; l++) edits.push_back({17, (uint8_t)pos, l});
+      for (size_t pos = 0; pos < n; pos++) edits.push_back({21, (uint8_t)pos});
+      for (const std::vector<uint8_t> &e : edits)
+        for (uint8_t sep : {(uint8_t)0, (uint8_t)8}) {
+          std::vector<uint8_t> v = {232, (uint8_t)(api ? 0 : 1), (uint8_t)b};
+          v.insert(v.end(), e.begin(), e.end());
+          v.push_back(sep);
+          if (api) v.push_back(1);  // grid of 3 values
+          all.push_back(v);
+        }
+    }
+  }
+  return all;
+}
+static uint64_t names_count(int) { return name_cases().size(); }
+static void names_make(uint64_t idx, int, std::vector<uint8_t> &out) { out = name_cases()[idx]; }
 
 static Target t = {
     "C19",
@@ -1044,13 +1207,14 @@ static Target t = {
     "counts 0,1,2,3,.. and 2^32-1, bounds incl. 1e300, denormals, inf, nan; then a drawn interleaving (<= 160 calls) of value / advance / value+advance / reset / clone / "
     "mpt_iterator_consume / documented loop over the source and up to 3 clones (text argument iterator: three reads in four are followed by a second read of the same element "
     "with another target type, fitting or not, before the advance), closed by walk-to-end, reset, second walk and two reads/advances past the end; "
-    "mpt_values_linear / mpt_values_bound on strided targets. non-trivial: a source with at least one element was walked to its end and elements were replayed after a reset or "
+    "mpt_values_linear / mpt_values_bound on strided targets; generator names derived from the documented ones by one edit (random incl. case variants, blanks, non-letters; "
+    "exhaustive for prefixes / insertions / substitutions / deletions), accepted iff documented. non-trivial: a source with at least one element was walked to its end and elements were replayed after a reset or "
     "in a clone, a malformed description was refused, or a strided fill of >= 3 points was checked; distinct by hash of the draw sequence.",
     run,
     {600, 1200},
     false,
     true,
-    {},
+    {{"generator names one edit away from the documented ones (prefixes, insertions, substitutions, deletions) x 2 separators, mpt_iterator_create and mpt_iterator_profile", names_count, names_make}},
     0,
     0,
 };
